@@ -31,6 +31,9 @@ def fam_list():
     F.append(("linear", d1 + "linear {\n colvars d1\n centers 4.0\n forceConstant 1.5\n}\n", "off"))
     F.append(("abf_same", d1 + "abf {\n colvars d1\n fullSamples 2\n}\n", "same"))
     F.append(("abf_prev", d1 + "abf {\n colvars d1\n fullSamples 2\n}\n", "prev"))
+    # one periodic variable whose grid spans the period: the biasing force is made zero-mean with the grid average of the gradients
+    F.append(("abf_periodic_prev", ctl.cv_d2(cvc_extra="    period 8.0\n") + "abf {\n colvars d2\n fullSamples 2\n}\n", "prev"))
+    F.append(("abf_periodic_same", ctl.cv_d2(cvc_extra="    period 8.0\n") + "abf {\n colvars d2\n fullSamples 1\n}\n", "same"))
     F.append(("abf2d_prev", d1 + d2 + "abf {\n colvars d1 d2\n fullSamples 1\n}\n", "prev"))
     F.append(("abf_harm_prev", d1 + "abf {\n colvars d1\n fullSamples 2\n}\nharmonic {\n colvars d1\n centers 5.0\n forceConstant 1.0\n}\n", "prev"))
     F.append(("eabf_prev", ctl.cv_d1(extra="  extendedLagrangian on\n  extendedFluctuation 0.25\n  extendedTimeConstant 50\n  extendedLangevinDamping 0\n")
